@@ -264,6 +264,9 @@ struct Req {
     cfg: sv::model::Cfg,
     sig: String,
     script: sv::model::Script,
+    /// how the request is written on the wire: spelling level and a dictated timestamp text
+    level: u8,
+    ov: Overrides,
 }
 
 fn make_requests(seed: u64, n: usize) -> Vec<Req> {
@@ -324,10 +327,22 @@ fn make_requests(seed: u64, n: usize) -> Vec<Req> {
         if k >= 8 {
             l.secret = format!("{}Z", &l.secret[..l.secret.len().min(39)]);
         }
+        // odd requests are written the way other clients write them (letter case, needless escapes, spaces, parameter order)
+        // and every fourth carries its timestamp in another ISO-8601 form — a local offset, the extended format with a
+        // fraction: the comparison must not depend on how the request that reaches it was spelled
+        let level: u8 = (k % 2) as u8;
+        let mut base_ov = Overrides::default();
+        if k % 4 == 1 {
+            base_ov.ts_text = Some(if k % 8 == 1 {
+                sv::gen::render_ts(l.t, false, 120, 1, false, false, 0)
+            } else {
+                sv::gen::render_ts(l.t, true, 0, 0, true, false, 2)
+            });
+        }
         let mut sr = Rng::keyed(seed, "C07", "spell", k as u64, 0);
         let mut sp = Speller {
             r: &mut sr,
-            level: 0,
+            level,
         };
         // odd requests: the server clock is not the request's instant, the provider hands out a richer identity
         let delta: i128 = if k % 2 == 1 {
@@ -335,7 +350,7 @@ fn make_requests(seed: u64, n: usize) -> Vec<Req> {
         } else {
             0
         };
-        let (mut case, mut facts) = make_case(&l, &cfg, &mut sp, &Overrides::default(), delta);
+        let (mut case, mut facts) = make_case(&l, &cfg, &mut sp, &base_ov, delta);
         // The expected signature is the secret here, and some of its shapes are special to code that massages it before
         // comparing (trimming zeroes, parsing it as a number): every second request is re-keyed until its signature begins
         // with '0', every fourth until it ends with '0'.
@@ -354,9 +369,9 @@ fn make_requests(seed: u64, n: usize) -> Vec<Req> {
                 let mut sr = Rng::keyed(seed, "C07", "spell", k as u64, 0);
                 let mut sp = Speller {
                     r: &mut sr,
-                    level: 0,
+                    level,
                 };
-                let (c2, f2) = make_case(&l, &cfg, &mut sp, &Overrides::default(), delta);
+                let (c2, f2) = make_case(&l, &cfg, &mut sp, &base_ov, delta);
                 case = c2;
                 facts = f2;
             }
@@ -371,6 +386,8 @@ fn make_requests(seed: u64, n: usize) -> Vec<Req> {
             cfg: case.cfg.clone(),
             sig: facts.sig,
             script,
+            level,
+            ov: base_ov,
         });
     }
     v
@@ -379,12 +396,12 @@ fn make_requests(seed: u64, n: usize) -> Vec<Req> {
 fn case_with_sig(req: &Req, seed: u64, k: usize, presented: &str) -> Case {
     let ov = Overrides {
         signature: Some(presented.to_string()),
-        ..Default::default()
+        ..req.ov.clone()
     };
     let mut sr = Rng::keyed(seed, "C07", "spell", k as u64, 0);
     let mut sp = Speller {
         r: &mut sr,
-        level: 0,
+        level: req.level,
     };
     let (wire, _) = sv::gen::render(&req.logical, &req.cfg, &mut sp, &ov);
     Case {
@@ -914,7 +931,7 @@ fn main() {
     ctx.exhaustive("first-difference positions 0–63 for each traced request", tier == Tier::Thorough);
     let rep = Report {
         level: "exploration",
-        rule: "Instruction-trace monitor: the process warms all lazily initialised globals, then forks one child per probe; the child builds its request, raises SIGSTOP, performs the single validation call, raises SIGSTOP again; the parent single-steps the child between the two stops with ptrace and folds every instruction address into (step count, 64-bit FNV hash). All children are forks of one warmed single-threaded parent (same layout, allocator state, hash seeds); request shapes: both carriers, with and without a session token (temporary-credential access keys), S3 mode, folded form POST, both options, services with signed-header requirements, a skewed server clock and a richer provider identity on every other request, two keys; probes differ only in the signature text: first wrong character at each probed position (digit for digit, letter for letter), all characters wrong, random multi-position variants; every position probe is repeated with a trace-level logger installed (log-macro arguments are then evaluated), with the whole signature in upper case, and with one far-away letter in upper case. Verdict: identical (count, hash) for all refusals of one request within each of these four groups. The plain group (5 positions, all-wrong, 3 multi-position variants) is traced again on an unoptimised build of crate and harness (profile `unopt`, opt-level 0; ≈ 770 000 steps per trace), where a data-dependent branch in the source cannot be turned into branch-free code by the optimiser; thorough also repeats a subset on the `checked` profile. Every wrong-signature probe must end refused and the correct signature accepted (child exit status), else the run is inconclusive. Controls: same probe twice ⇒ same trace; a harness-local `==` over the same inputs must show position-dependent lengths (proves the byte-wise memcmp/bcmp override is effective). Distinct = distinct (request, wrong signature) traces compared.".into(),
+        rule: "Instruction-trace monitor: the process warms all lazily initialised globals, then forks one child per probe; the child builds its request, raises SIGSTOP, performs the single validation call, raises SIGSTOP again; the parent single-steps the child between the two stops with ptrace and folds every instruction address into (step count, 64-bit FNV hash). All children are forks of one warmed single-threaded parent (same layout, allocator state, hash seeds); request shapes: both carriers, canonical spelling and other clients' spellings (letter case, needless escapes, parameter order; timestamps with a local offset or in the extended format with a fraction), with and without a session token (temporary-credential access keys), S3 mode, folded form POST, both options, services with signed-header requirements, a skewed server clock and a richer provider identity on every other request, two keys; probes differ only in the signature text: first wrong character at each probed position (digit for digit, letter for letter), all characters wrong, random multi-position variants; every position probe is repeated with a trace-level logger installed (log-macro arguments are then evaluated), with the whole signature in upper case, and with one far-away letter in upper case. Verdict: identical (count, hash) for all refusals of one request within each of these four groups. The plain group (5 positions, all-wrong, 3 multi-position variants) is traced again on an unoptimised build of crate and harness (profile `unopt`, opt-level 0; ≈ 770 000 steps per trace), where a data-dependent branch in the source cannot be turned into branch-free code by the optimiser; thorough also repeats a subset on the `checked` profile. Every wrong-signature probe must end refused and the correct signature accepted (child exit status), else the run is inconclusive. Controls: same probe twice ⇒ same trace; a harness-local `==` over the same inputs must show position-dependent lengths (proves the byte-wise memcmp/bcmp override is effective). Distinct = distinct (request, wrong signature) traces compared.".into(),
         assumptions: vec![
             "decides the property as stated (instruction sequence), not micro-architectural timing".into(),
             "the success path (correct signature) is traced but excluded from the comparison".into(),
